@@ -5,6 +5,7 @@ ENGINES = [
 NOTES = 'All checks are runtime monitors over executions of the real headers; verdicts are "held on what was observed". See DESIGN.md.'
 NOT_YET = {}
 CHECK_TEXT = {
+    'C06': {'technique': 'runtime monitoring: structural-invariant + reference-order monitor through the public navigation API after every insert/remove of bounded-exhaustive and random histories, under ASan+UBSan'},
     'C14': {'technique': 'runtime monitoring: differential monitor against std::unordered_map after every operation of seeded histories, 6 hash functors, under ASan+UBSan'},
     'C17': {'technique': 'runtime monitoring: (state,value) reference-model monitor after every operation of bounded-exhaustive and random holder operation sequences, under ASan+UBSan'},
     'C15': {'technique': 'runtime monitoring: differential monitor against std::string over exhaustive small strings/pairs and random sequences, sources in exact-size guarded buffers under ASan+UBSan'},
